@@ -143,6 +143,15 @@ class ArrayType(AggregateType):
             repr(self.__elementType), self.__arraySize
         )
 
+    def __eq__(self, other):
+        """Array types are equal if they have the same shape and element
+        type (every declaration creates its own type instance.)"""
+        return (
+            isinstance(other, ArrayType)
+            and self.__arraySize == other.GetSize()
+            and self.__elementType == other.GetComponentType()
+        )
+
 
 class StructType(AggregateType):
     def __init__(self, name: str, declarations):
@@ -239,12 +248,17 @@ class Function(Type):
             : len(parameterList)
         ]
 
-        return sum(
-            [
-                Match(e[0], e[1])
-                for e in zip(parameterList, matchingArgumentTypes)
-            ]
-        )
+        scores = [
+            Match(e[0], e[1])
+            for e in zip(parameterList, matchingArgumentTypes)
+        ]
+
+        # A single argument which cannot be converted makes the whole
+        # function non-viable, no matter how well the others match
+        if any([score < 0 for score in scores]):
+            return -1
+
+        return sum(scores)
 
     def GetReturnType(self) -> Type:
         """The return type of this function, potentially unresolved."""
@@ -411,7 +425,9 @@ def IsCompatible(left, right):
         if left.GetSize() != right.GetSize():
             return False
         else:
-            return IsCompatible(left.GetType(), right.GetType())
+            return IsCompatible(
+                left.GetComponentType(), right.GetComponentType()
+            )
     elif left.IsPrimitive() and right.IsPrimitive():
         if isinstance(left, Void) or isinstance(right, Void):
             return isinstance(left, Void) and isinstance(right, Void)
@@ -426,8 +442,8 @@ def IsCompatible(left, right):
         if left.IsVector() and right.IsVector():
             return left.GetSize() == right.GetSize()
         elif left.IsMatrix() and right.IsMatrix():
-            return (left.GetRows() == right.GetRows()) and (
-                left.GetColumns() == right.GetColumns()
+            return (left.GetRowCount() == right.GetRowCount()) and (
+                left.GetColumnCount() == right.GetColumnCount()
             )
         elif left.IsScalar() and right.IsScalar():
             return True
